@@ -774,6 +774,46 @@ contract(SPF + ".open", params=dict(cls=TAny, local_path=TStr), returns=SPFT, pa
                  + [cache_ok("result>" + S_U)],
          modifies_ghost=["fh_state", "fh_path", "fh_pos"], no_runtime=True, props=["C19"])
 
+# ---- from_list (explicit item size and length): the new array reads as the padded list followed by zeros ----------------------
+PW = "p_array>" + S_U
+PP = "p_array.__underlying_array"
+
+
+def items_fit(E, env):
+    """no item of the list is longer than the item size"""
+    L_ = E.list_sv(env["list_"]).t
+    k = z3.Int("fk")
+    return SV(z3.ForAll([k], Imp(And(0 <= k, k < Len(L_)), Len(L_[k]) <= z3_int(env["item_size"])), patterns=[nth_pat(L_, k)]), TBool)
+
+
+def view_filled(upto_src, who):
+    """items below `upto` read as the left-zero-padded list items, every other item reads as zeros"""
+    def f(E, env):
+        base, m, sz = (_afld(E, env, n, who) for n in (A_PATH, A_M, A_SZ))
+        upto = z3_int(E.spec_eval(upto_src, env, old=True))
+        L_ = E.list_sv(env["list_"]).t
+        j = z3.Int("vj")
+        fsn = _named(E, E.ghostv["fs"].t)
+        return SV(z3.ForAll([j], Imp(j >= 0, aitem(fsn, base, m, sz, j) ==
+                                     z3.If(And(j < upto, j < Len(L_)), z3.Concat(zeros(sz - Len(L_[j])), L_[j]), zeros(sz))),
+                            patterns=[aitem(fsn, base, m, sz, j)]), TBool)
+    return f
+
+
+inline(SPF + ".create")
+FL_FIELDS = ["%s.__item_size == item_size" % "{0}", "%s.__array_len == max(list_len, len(list_))" % "{0}",
+             "%s.__item_num_in_one_file == chunk_size" % "{0}", "%s.__local_path == local_path" % "{0}"]
+contract(SPF + ".from_list#sized", params=dict(cls=TAny, list_=TList(TBytes), local_path=TStr, chunk_size=TInt, item_size=TInt, list_len=TInt),
+         returns=SPFT, param_values={"cls": ClassRef(SPF)},
+         requires=["item_size >= 1", "chunk_size >= 1", "list_len >= 0", "max(list_len, len(list_)) >= 1", no_chunks, items_fit],
+         raises={"FileExistsError": dict(when="(%s) in old(fs)" % MP, iff=True)}, raise_ensures={"FileExistsError": NOFX},
+         locals={"p_array": SPFT},
+         ensures=["inv(result.__underlying_array)", cache_ok("result>" + S_U)] + [x.format("result.__underlying_array") for x in FL_FIELDS] +
+                 [view_filled("len(list_)", "result>" + S_U)],
+         lemmas=["zeros_len"],
+         loops={1: dict(invariant=["inv(%s)" % PP, cache_ok(PW)] + [x.format(PP) for x in FL_FIELDS] + [view_filled("it", PW)])},
+         modifies_ghost=FGHOST, no_runtime=True, props=["C19"])
+
 # ---- a closed array refuses every operation ----------------------------------------------------------------------------------
 for nm_, ps_ in (("__getitem__", dict(item=TInt)), ("__setitem__", dict(key=TInt, value=TBytes)), ("__len__", {}), ("__iter__", {})):
     contract(SPF + "." + nm_ + "#closed", params=dict(self=SPFC, **ps_), no_runtime=True, props=["C19"], **CLOSED_RAISES)
